@@ -1,24 +1,72 @@
 ------------------------------ MODULE SourceKind ------------------------------
-(* C05, the stream factory HTMLInputStream(source, **kwargs): which stream class a source kind  *)
-(* gets and which encoding is in force when one is DECLARED (so that it is "certain"), for      *)
-(* every source kind the factory distinguishes and every way of declaring.  Encoding labels are *)
-(* atoms here; "none" = not given.  A BOM can only be utf-8 / utf-16le / utf-16be.              *)
-(* Precedence among the certain declarations: BOM, then override_encoding, then                 *)
-(* transport_encoding (as documented by html5lib; the tentative sources belong to C06).         *)
+(* C05, the stream factory HTMLInputStream(source, **kwargs) and the hand-over of the source:   *)
+(* which stream class a source gets, which encoding is in force when one is DECLARED (so that   *)
+(* it is "certain"), and WHERE in the source reading starts, for every source kind the factory  *)
+(* can meet, every way of declaring, and every state of the source object at hand-over.         *)
+(*                                                                                               *)
+(* A source kind is a record [name, yields, seek, mode]:                                         *)
+(*   yields  what read() returns: "text" | "bytes"       (the ONLY thing classification may use) *)
+(*   seek    stream.seek(stream.tell()) works                                                    *)
+(*   mode    the object's .mode attribute: "none" (absent) | "r" | "rb" | "int" (not a string) -  *)
+(*           real file objects carry one, and it need not say what read() returns (a zip member  *)
+(*           has "r" and yields bytes, a codecs.open() reader has "rb" and yields text)          *)
+(* State at hand-over, pos: "start" | "mid" (the caller consumed a prefix) | "end" (exhausted)   *)
+(*           | "closed".                                                                         *)
+(* Encoding labels are atoms; "none" = not given; a BOM (sniffed where reading starts) can only  *)
+(* be utf-8 / utf-16le / utf-16be.  Precedence among the certain declarations: BOM, override,   *)
+(* transport (the tentative sources belong to C06).                                             *)
+(*                                                                                               *)
+(* Result [out, enc, conf, from]: from = where the document starts: "current" (the position at   *)
+(* hand-over - the file-object convention, and the only reading every source kind of the        *)
+(* property can implement) | "start" (absolute offset 0) | "start+bom" (absolute offset = length *)
+(* of the BOM that was sniffed at the CURRENT position).                                        *)
+(* Named deviation of the code: "seekable-bytes-rewound" - detectBOM() sniffs at the current     *)
+(* position and then seeks to an ABSOLUTE offset (0, or the BOM length), so a seekable byte      *)
+(* stream that is not at its start is read from (near) its beginning, while the same bytes from  *)
+(* a non-seekable stream, or the same characters from a text stream, are read from the current  *)
+(* position.                                                                                     *)
 EXTENDS Naturals
-TextKinds == {"str", "stringio", "shorttext"}
-ByteKinds == {"bytes", "bytesio", "nonseekable", "shortbytes", "httpresponse", "httpchunked", "addinfourl"}
-Kinds == TextKinds \cup ByteKinds
+CONSTANT KnownDefects
+Modes == {"none", "r", "rb", "int"}
+K(n, y, s, m) == [name |-> n, yields |-> y, seek |-> s, mode |-> m]
+\* objects that are not streams (no position, cannot be closed)
+Plain == {K("str", "text", FALSE, "none"), K("bytes", "bytes", FALSE, "none")}
+\* real library objects, with the attributes they really have (the harness verifies these claims on the objects)
+Library == {K("stringio", "text", TRUE, "none"), K("textiowrapper", "text", TRUE, "none"), K("textfile", "text", TRUE, "r"),
+            K("codecsopen", "text", TRUE, "rb"), K("gziptext", "text", TRUE, "none"),
+            K("bytesio", "bytes", TRUE, "none"), K("binfile", "bytes", TRUE, "rb"), K("rawfile", "bytes", TRUE, "rb"),
+            K("bufferedreader", "bytes", TRUE, "none"), K("zipmember", "bytes", TRUE, "r"), K("gzipbin", "bytes", TRUE, "int"),
+            K("httpresponse", "bytes", FALSE, "none"), K("httpchunked", "bytes", FALSE, "none"),
+            K("addinfourl", "bytes", FALSE, "none")}
+\* duck-typed sources: every combination of what read() yields, seekability and a truthful / lying / odd .mode
+\* (seek = FALSE: no seek/tell at all for mode "none", seekable()/tell() that raise otherwise; short reads)
+Duck == {K("duck", y, s, m) : y \in {"text", "bytes"}, s \in BOOLEAN, m \in Modes}
+Kinds == Plain \cup Library \cup Duck
+\* closing is meaningful (and every read(), also read(0), then raises ValueError) for the io-backed objects
+\* (a closed HTTPResponse reads as empty; a closed codecs.open() reader answers read(0) without touching the file)
+Closable(k) == k \in Library /\ k.name \notin {"httpresponse", "httpchunked", "addinfourl", "codecsopen"}
 
-\* what opening source kind k with the given declarations yields
-Open(k, bom, ov, tr) ==
-    IF k \in TextKinds
+Open(k, bom, ov, tr, pos, D) ==
+    IF pos = "closed" THEN [out |-> "ValueError", enc |-> "none", conf |-> "none", from |-> "none"]
+    ELSE IF k.yields = "text"
     THEN IF ov # "none" \/ tr # "none"
-         THEN [out |-> "TypeError", enc |-> "none", conf |-> "none"]          \* an encoding cannot be set for text
-         ELSE [out |-> "unicode", enc |-> "utf-8", conf |-> "certain"]        \* charEncoding of a text stream
-    ELSE [out |-> "binary", enc |-> IF bom # "none" THEN bom ELSE IF ov # "none" THEN ov ELSE tr, conf |-> "certain"]
+         THEN [out |-> "TypeError", enc |-> "none", conf |-> "none", from |-> "none"]     \* an encoding cannot be set for text
+         ELSE [out |-> "unicode", enc |-> "utf-8", conf |-> "certain", from |-> "current"]
+    ELSE [out |-> "binary", enc |-> IF bom # "none" THEN bom ELSE IF ov # "none" THEN ov ELSE tr, conf |-> "certain",
+          from |-> IF "seekable-bytes-rewound" \in D /\ k.seek /\ pos # "start"
+                   THEN (IF bom # "none" THEN "start+bom" ELSE "start") ELSE "current"]
 
-Declared(k, bom, ov, tr) == IF k \in TextKinds THEN bom = "none" ELSE (bom # "none" \/ ov # "none" \/ tr # "none")
-\* the property at this level: the byte source kinds are interchangeable
-KindIndependent(bom, ov, tr) == \A k1, k2 \in ByteKinds : Open(k1, bom, ov, tr) = Open(k2, bom, ov, tr)
+\* the explored domain: an encoding is declared for byte sources; a BOM is only there when something is left to read
+Declared(k, bom, ov, tr, pos) ==
+    /\ k \in Plain => pos = "start"
+    /\ pos = "closed" => Closable(k)
+    /\ IF k.yields = "text" THEN bom = "none"
+       ELSE /\ (bom # "none" \/ ov # "none" \/ tr # "none")
+            /\ pos \in {"end", "closed"} => (bom = "none")
+\* the property at this level: only what read() yields matters - not the attributes, not seekability, not the library
+KindIndependent(bom, ov, tr, pos, D) ==
+    \A k1, k2 \in Kinds : (k1.yields = k2.yields /\ Declared(k1, bom, ov, tr, pos) /\ Declared(k2, bom, ov, tr, pos))
+                          => Open(k1, bom, ov, tr, pos, D) = Open(k2, bom, ov, tr, pos, D)
+\* and the document always starts where the caller left the source
+FromCurrent(k, bom, ov, tr, pos, D) == Open(k, bom, ov, tr, pos, D).from \in {"current", "none"}
 =============================================================================
